@@ -205,6 +205,9 @@ def _derived(draw):
         else:
             spec = draw(sample_spec(min_d=1, max_d=3, min_n=1, max_n=25, datatypes=('I', 'F'), log_amp=False))
             spec['negatives'] = draw(st.booleans())
+            if spec['datatype'] == 'F' and spec['n'] > 0 and draw(st.integers(0, 3)) == 0:
+                # floating-point events may exceed the declared range: T is still the range, not the largest event
+                spec['specials'] = list(spec.get('specials') or []) + [[0, c_, 3.5 * spec['ranges'][c_]] for c_ in range(len(spec['widths']))]
             if draw(st.integers(0, 5)) == 0:
                 spec['n'] = 0                      # a sample gated down to nothing still knows its range
                 spec.pop('specials', None)
